@@ -559,14 +559,19 @@ func (p *printer) push() {
 }
 
 func (p *printer) heredoc() {
-	// pop
-	list := p.stack[len(p.stack)-1]
-	p.stack = p.stack[:len(p.stack)-1]
-	for _, r := range list {
-		p.newline()
-		p.word(r.Heredoc)
-		p.word(r.Delim)
+	// the frame stays on the stack while the bodies are printed: a body
+	// can hold a command substitution with a here-document of its own
+	top := len(p.stack) - 1
+	for list := p.stack[top]; len(list) != 0; list = p.stack[top] {
+		p.stack[top] = nil
+		for _, r := range list {
+			p.newline()
+			p.word(r.Heredoc)
+			p.word(r.Delim)
+		}
 	}
+	// pop
+	p.stack = p.stack[:top]
 }
 
 func (p *printer) word(w ast.Word) {
